@@ -68,6 +68,17 @@ def rule_split(lines, rng):
     return lines[:i] + [f"{name}{args} " + " ".join(ts[:k]), f"{name}{args} " + " ".join(ts[k:])] + lines[i + 1:], "split-broadcast"
 
 
+def rule_split_obs(lines, rng):
+    """OBSERVABLE_INCLUDE(k) a b  ==  OBSERVABLE_INCLUDE(k) a ; OBSERVABLE_INCLUDE(k) b   (and DETECTOR-free circuits get an observable first)"""
+    idx = [i for i, l in enumerate(lines) if l.startswith("OBSERVABLE_INCLUDE") and len(l.split()) >= 3]
+    if not idx:
+        return None
+    i = idx[int(rng.integers(0, len(idx)))]
+    head, ts = lines[i].split()[0], lines[i].split()[1:]
+    k = int(rng.integers(1, len(ts)))
+    return lines[:i] + [f"{head} " + " ".join(ts[:k]), f"{head} " + " ".join(ts[k:])] + lines[i + 1:], "split-observable-include"
+
+
 def rule_merge(lines, rng):
     for i in range(len(lines) - 1):
         a, b = parse(lines[i]), parse(lines[i + 1])
@@ -173,6 +184,27 @@ def run(ctx: Ctx) -> int:
     deadline = time.time() + (150 if ctx.quick else 1500)
     n = 45 if ctx.quick else 900
     rules = [rule_layout, rule_identity, rule_split, rule_merge, rule_relabel, rule_equiv, rule_commute, "uuinv", "repeat"]
+    # observables fed by several OBSERVABLE_INCLUDE instructions vs one merged instruction (detector sampler)
+    for text in ["H 0 1\nT 1\nH 1\nM 0 1\nOBSERVABLE_INCLUDE(0) rec[-1] rec[-2]", "H 0\nCX 0 1\nH 2\nT 2\nH 2\nM 0 1 2\nDETECTOR rec[-3] rec[-2]\nOBSERVABLE_INCLUDE(1) rec[-1] rec[-3] rec[-2]",
+                 "H 0\nM 0\nX_ERROR(0.25) 1\nM 1\nH 2\nT 2\nH 2\nM 2\nOBSERVABLE_INCLUDE(0) rec[-3] rec[-1]\nOBSERVABLE_INCLUDE(2) rec[-2] rec[-1]"]:
+        lines = text.split("\n")
+        for _rep in range(2):
+            r = rule_split_obs(lines, rng)
+            if r is None:
+                continue
+            text2 = "\n".join(r[0])
+            try:
+                d1, _ = tsim_dist(tsim.Circuit(text), det=True)
+                d2, _ = tsim_dist(tsim.Circuit(text2), det=True)
+            except Exception as e:
+                ctx.violation("rewrite-raises-split-observable:" + text2.replace("\n", ";")[:50], f"tsim raised {e!r} on a rewritten circuit", {"original": text, "rewritten": text2, "det": True})
+                continue
+            dd = dist_diff(d1, d2)
+            ctx.count(("split-obs", text, text2), nontrivial=True, bucket="split-observable-include")
+            if dd > tolerance(False):
+                ctx.violation("rewrite-split-observable-include:" + text2.replace("\n", ";")[:60],
+                              f"splitting an OBSERVABLE_INCLUDE into two instructions changed the exact detector-sampler distribution by {dd:.3g}",
+                              {"original": text, "rewritten": text2, "det": True, "rule": "split-observable-include"})
     done = 0
     for k in range(n * 3):
         if done >= n or time.time() > deadline:
